@@ -17,6 +17,13 @@ class frozenlist(list):  # type: ignore[type-arg]
     Raises a `GuppyComptimeError` for any operation that would mutate the list.
     """
 
+    def __init__(self, *args: Any, **kwargs: Any) -> None:
+        # `list.__init__` replaces the contents of the list, so it may only run once
+        if getattr(self, "_initialised", False):
+            raise GuppyComptimeError(ERROR_MSG)
+        super().__init__(*args, **kwargs)
+        self._initialised = True
+
     def append(self, *args: Any, **kwargs: Any) -> None:
         raise GuppyComptimeError(ERROR_MSG)
 
